@@ -63,6 +63,7 @@ WATCHDOG_S = {"quick": 1800, "thorough": 10800}
 
 BASE_SEED = "0"
 AXES = ["repeat", "layout", "hashseed", "history", "file-order"]
+WARM_RUNS = 3
 ESCALATE_REPEATS = 30
 REPLAY_ATTEMPTS = 40
 
@@ -71,10 +72,9 @@ REPLAY_ATTEMPTS = 40
 
 
 def render(result) -> list:
-    if result.exception is not None:
-        e = result.exception
-        return [("<exception>", None, None, harness.normalise_text(f"{type(e).__name__}: {str(e)[:300]}"))]
-    return [(d.code, d.lineno, d.col, d.message) for d in result.diags]
+    from vp.c10_child import render as _render
+
+    return _render(result)
 
 
 def _tup(r) -> tuple:
@@ -269,7 +269,8 @@ def classify(ra, rb):
         # TypedValue.__str__ prints the member list only when the Value object's lazily-filled type object is there
         return "*", "content", "protocol member list shown or hidden", da, db
     ma, mb = canon_union(ma), canon_union(mb)
-    if ma == mb:
+    if ma == mb or sorted(ma.split("\n")) == sorted(mb.split("\n")):
+        # (members of a union, or the per-member detail lines of a message about a union)
         return "*", "union-member-order", "", da, db
     if canon_names(ma) == canon_names(mb):
         return da[0], "listed-names-order", msg_class(da, db), da, db
@@ -283,6 +284,18 @@ def text_inside_internal_repr(text: str, pos: int) -> bool:
 
 # codes emitted by one and the same loop are one mechanism (NameCheckVisitor._check_function_unused_vars)
 CODE_GROUPS = {"unused_variable": "unused_variable/unused_assignment", "unused_assignment": "unused_variable/unused_assignment"}
+
+
+def same_wrt(c, r_first, r_other) -> bool:
+    """Do two renderings agree as far as the difference `c` is concerned (other nondeterminism in the same program
+    must not confound the attribution of this one)?"""
+    if c[1] == "order-of-diagnostics" or (c[3] is None and c[4] is None):
+        c2 = classify(r_first, r_other)
+        return c2 is None or suffix_of(c2) != suffix_of(c)
+    for d in (c[3], c[4]):
+        if d is not None and (tuple(d) in {tuple(x) for x in r_first}) != (tuple(d) in {tuple(x) for x in r_other}):
+            return False
+    return True
 
 
 def suffix_of(c) -> str:
@@ -404,10 +417,11 @@ def inproc_repeats(src: str, mode: str, n: int, rng: random.Random, kw=None) -> 
 
 
 def repeat_diffs(rs: list) -> list:
-    """Differences among runs on a WARM Checker. rs[0] is the run that warmed the fresh Checker: a difference between
-    rs[0] and rs[1] may be an effect of the Checker's state (axis `history`, with P itself as the history)."""
+    """Differences among runs on a WARM Checker. The first WARM_RUNS runs fill the fresh Checker's caches and the lazily
+    filled fields of shared Value objects: a difference between rs[0] and rs[1] or rs[2] is an effect of the Checker's
+    state (axis `history`, with P itself as the history), not of repetition as such."""
     out = []
-    warm = rs[1:]
+    warm = rs[WARM_RUNS:]
     for r in warm[1:]:
         c = classify(warm[0], r)
         if c is not None:
@@ -546,7 +560,7 @@ def plan_envs(ctx, rng) -> list:
 
 def shard(ctx) -> None:
     rng = ctx.rng
-    R = ctx.pick(6, 7)
+    R = ctx.pick(8, 9)
     progs = []
     # (c) repeated runs on one fresh Checker; also validates that the program imports standalone
     for p in build_corpus(ctx):
@@ -564,9 +578,10 @@ def shard(ctx) -> None:
         p.ndiags = len(p.rep[0])
         for c in repeat_diffs(p.rep):
             p.found.setdefault(suffix_of(c), ("repeat", c, {"attempts": R}))
-        # first run on the fresh Checker vs second run: the history is P itself
-        p.hist.append(("self", [pi], p.rep[1]))
-        ctx.count("histories")
+        # first run on the fresh Checker vs later runs: the history is P itself
+        for k in range(1, WARM_RUNS):
+            p.hist.append((f"self-{k}", [pi] * k, p.rep[k]))
+            ctx.count("histories")
 
     # (d) histories: prefix order / warm-up + reverse order on one shared Checker each; plus related-program histories
     by_mode: dict = {}
@@ -660,7 +675,7 @@ def shard(ctx) -> None:
                     continue
                 extra = {"envs": [envs[k0], envs[ks[0]]]}
                 if len(ks) > 1:
-                    stable = all(p.child[k] == p.child[ks[0]] for k in ks[1:])
+                    stable = all(same_wrt(c, p.child[ks[0]], p.child[k]) for k in ks[1:])
                     p.found[suf] = ("hashseed" if stable else "layout", c, extra)
                 else:
                     p.found[suf] = ("hashseed", c, extra)
@@ -678,7 +693,7 @@ def shard(ctx) -> None:
             for pi, suf in items:
                 p = progs[pi]
                 _, c, extra = p.found[suf]
-                if again[pi][0] != p.child[k]:
+                if not same_wrt(c, p.child[k], again[pi][0]):
                     p.found[suf] = ("layout", c, extra)
 
     # history attribution (baseline: first run on a fresh Checker)
@@ -915,7 +930,7 @@ def replay(witness):
             add("layout", c, {"envs": [b, e]})
             continue
         r2 = child(dict(e, junk_import=5000, junk_parse=500, junk_seed=7))
-        add("hashseed" if (r2 is None or r2 == r) else "layout", c, {"envs": [b, e]})
+        add("hashseed" if (r2 is None or same_wrt(c, r, r2)) else "layout", c, {"envs": [b, e]})
         if want in found:
             break
     return result()
